@@ -537,6 +537,9 @@ func (p *Parser) evaluateValues(ctx context) (evaluatedValues, error) {
 			if returnValuesLength == 0 {
 				return evaluatedValues{}, p.expectedError(fmt.Sprintf(`return value from function "%s"`, funcName), exprToken)
 			}
+		} else if call, ok := ungroup(expr).(FunctionCall); ok && len(call.ReturnTypes()) != 1 {
+			// A group is a single value, therefore a grouped function call must return exactly one value.
+			return evaluatedValues{}, p.expectedError(fmt.Sprintf(`exactly one return value from function "%s"`, call.Name()), exprToken)
 		}
 		// Check if other values follow.
 		if nextToken.Type() != lexer.COMMA {
@@ -563,9 +566,21 @@ func (p *Parser) evaluateValues(ctx context) (evaluatedValues, error) {
 	}, nil
 }
 
+// ungroup returns the expression which is enclosed by (nested) round brackets.
+func ungroup(expr Expression) Expression {
+	for {
+		group, ok := expr.(Group)
+
+		if !ok {
+			return expr
+		}
+		expr = group.Child()
+	}
+}
+
 // checkValueProvided makes sure an expression which is used as a value actually provides one.
 func (p *Parser) checkValueProvided(expr Expression, token lexer.Token) error {
-	if call, ok := expr.(FunctionCall); ok && len(call.ReturnTypes()) == 0 {
+	if call, ok := ungroup(expr).(FunctionCall); ok && len(call.ReturnTypes()) == 0 {
 		return p.expectedError(fmt.Sprintf(`return value from function "%s"`, call.Name()), token)
 	}
 	return nil
